@@ -168,6 +168,28 @@ PROBES = [
     ("optional-everything", ["rust", "python", "cxx"], "struct S { a: 8 } enum E : 16 { A = 1 } packet P { c0: 1, c1: 1, c2: 1, _reserved_: 5, a: 24 if c0 = 1, b: E if c1 = 0, s: S if c2 = 1 }"),
     ("sixty-four-bit-everything", ["rust", "python", "cxx", "java"], "enum E : 64 { A = 0xffffffffffffffff, B = 0 } packet P { a: 64, e: E, _fixed_ = 0xffffffffffffffff : 64, x: 64[2] }"),
     ("struct-inheritance", ["rust", "python", "cxx"], "struct A { k: 8, _payload_ } struct B : A (k = 1) { v: 16 } packet P { a: A }"),
+    # constructs the C++ / Java engines' pre-filters predict as not compilable (one probe per class)
+    ("cxx-two-closed-enum-fields", ["cxx"], "enum E : 8 { A = 1, B = 2 } packet P { a: E, b: E }"),
+    ("cxx-struct-with-payload", ["cxx"], "struct S { a: 8, _payload_ } packet P { s: S }"),
+    ("cxx-empty-packet", ["cxx"], "packet A { t: 8, _payload_ } packet B : A (t = 1) { }"),
+    ("cxx-payload-size-at-two-levels", ["cxx"], "packet A { _size_(_payload_): 8, _payload_ } packet B : A { b: 8, _size_(_payload_): 8, _payload_ }"),
+    ("cxx-field-named-like-member", ["cxx"], "packet P { valid: 8, bytes: 8 }"),
+    ("cxx-keyword-field", ["cxx"], "packet P { class: 8, int: 8 }"),
+    ("cxx-unsized-payload-then-dynamic", ["cxx"], "packet P { _payload_, _count_(x): 8, x: 8[] }"),
+    ("java-wide-enum-tag", ["java"], "enum E : 32 { A = 0x80000000 } packet P { e: E }"),
+    ("java-fixed-scalar-width-1", ["java"], "packet P { _fixed_ = 1 : 1, a: 7 }"),
+    ("java-fixed-scalar-width-17", ["java"], "packet P { _fixed_ = 3 : 17, a: 15 }"),
+    ("java-constraint-value-128", ["java"], "packet A { t: 8, _payload_ } packet B : A (t = 128) { b: 8 }"),
+    ("java-size-field-width-1", ["java"], "packet P { _size_(x): 1, a: 7, x: 8[] }"),
+    ("java-size-field-width-40", ["java"], "packet P { _size_(x): 40, x: 8[] }"),
+    ("java-size-of-body", ["java"], "packet A { _size_(_body_): 8, _body_ } packet B : A { b: 8 }"),
+    ("java-empty-child", ["java"], "packet A { t: 8, _payload_ } packet B : A (t = 1) { }"),
+    ("java-keyword-member", ["java"], "packet P { class: 8, int: 8 }"),
+    ("java-member-named-result", ["java"], "packet P { result: 8, other: 8 }"),
+    ("java-class-named-Builder", ["java"], "packet Builder { a: 8 }"),
+    ("java-member-ending-in-size", ["java"], "packet P { a_size: 8 }"),
+    ("java-body-without-children", ["java"], "packet P { a: 8, _body_ }"),
+    ("java-constraint-on-grandparent", ["java"], "packet A { t: 8, _payload_ } packet B : A { _payload_ } packet C : B (t = 1) { c: 8 }"),
     ("group-nested-constraints", ["rust", "python", "cxx", "java"], "enum E : 8 { X = 1 } group G { a: 8, e: E } group H { G { a = 3 }, b: 8 } packet P { H, G { e = X } }"),
 ]
 
@@ -232,9 +254,23 @@ def stage_texts(drv, items, res, V, judge_backends):
                     continue
                 sig = "%s|%s" % (b, _sig(g["panic"]) if "panic" in g else str(g.get("err"))[:60])
                 if judge_backends and b.split(":")[1] in judge_backends:
-                    V("%s|backend-fails:%s|%s" % (b.split(":")[1], sig.split("|", 1)[1], label), dict(case, observed=str(g)[:600]))
+                    V("%s|backend-fails:%s|%s" % (b.split(":")[1], sig.split("|", 1)[1], scope_label(label)), dict(case, observed=str(g)[:600]))
                 else:
                     res["unscoped"][sig] = res["unscoped"].get(sig, 0) + 1
+
+
+def norm_compile(msg):
+    """first compiler error line -> signature text independent of names, profiles and line numbers"""
+    msg = re.sub(r";? did you mean [^|]*", "", msg)
+    msg = re.sub(r"pv[gj]_?[\w.]*(::|\.)", "NS::", msg)
+    msg = re.sub(r"'NS::\w+'", "'NS::ID'", msg)
+    msg = re.sub(r"\b(?:T\d+_E\d+|[A-Z][a-z]*\d+|f\d+)\b", "ID", msg)
+    msg = re.sub(r"'[A-Z]'", "'ID'", msg)
+    return rustwl.norm_msg(msg)
+
+
+def scope_label(label):
+    return label.split(":")[0] if label.startswith("generator") else label
 
 
 def _sig(p):
@@ -278,7 +314,17 @@ def gen_worker(task):
             for e in (A.LE, A.BE):
                 f = A.with_endianness(g["file"], e)
                 text, _ = render.render(f)
-                stage_texts(drv, [(text, "generator:" + prof)], res, V, sup)
+                stage_texts(drv, [(text, "generator:" + prof)], res, V, sup - {"java"})
+                if "java" in sup:
+                    from ..engines import java as JV
+                    jex = list(JV.auto_exclude(f))
+                    rj = drv.request(text, ["analyze", "gen:java"], timeout=60, exclude=jex,
+                                     java_dir=os.path.join(build.WORK, "c10", "java-%d" % os.getpid()))
+                    res["evals"] += 1
+                    gj = rj.get("gen:java", {})
+                    if analyze_ok(rj) and "ok" not in gj:
+                        V("java|backend-fails:%s|generator" % (_sig(gj["panic"]) if "panic" in gj else str(gj)[:80]),
+                          {"class": "generator:" + prof, "source": text[:6000], "excluded": jex, "observed": str(gj)[:600]})
                 compile_targets(text, f, sup, "%s-%s-%s" % (sd.replace(".", "_"), prof, e[:1]), res, V, "generator:" + prof)
     drv.close()
     res["nontrivial"] = sorted(res["nontrivial"])
@@ -295,12 +341,12 @@ def compile_targets(text, f, sup, name, res, V, label):
             h.generate()
             err = h.compile_check()
             if err:
-                V("python|generated-code-does-not-compile|%s" % label, dict(case, observed=err))
+                V("python|generated-code-does-not-compile|%s" % scope_label(label), dict(case, observed=err))
             else:
                 r = h.call({"op": "types"})
                 if "types" not in r:
                     V("python|generated-module-does-not-import:%s|%s" % (
-                        rustwl.norm_msg(str((r.get("import_error") or {}).get("exc"))), label), dict(case, observed=str(r)[:800]))
+                        rustwl.norm_msg(str((r.get("import_error") or {}).get("exc"))), scope_label(label)), dict(case, observed=str(r)[:800]))
                 else:
                     res["compiled"]["python"] += 1
             h.close()
@@ -315,7 +361,20 @@ def compile_targets(text, f, sup, name, res, V, label):
         except ImportError:
             continue
         H, E = getattr(mod, cls), getattr(mod, exc)
-        h = H("c10_" + re.sub(r"\W", "_", name), f, text)
+        excl = ()
+        if label.startswith("generator"):
+            # declarations the engine's static pre-filter predicts the backend cannot take are left
+            # out here: each predicted class is exercised on its own by a curated probe below
+            if lang == "cxx":
+                from . import cxxwl
+                excl = cxxwl.excluded_for_cxx(f)
+            else:
+                excl = mod.auto_exclude(f)
+            res.setdefault("prefiltered", {}).setdefault(lang, 0)
+            res["prefiltered"][lang] += len(excl)
+            if len(excl) >= len([d for d in f["declarations"] if d["kind"] in ("packet_declaration", "struct_declaration")]):
+                continue
+        h = H("c10_" + re.sub(r"\W", "_", name), f, text, exclude=excl)
         try:
             h.generate()
             h.build({})
@@ -325,14 +384,14 @@ def compile_targets(text, f, sup, name, res, V, label):
             if "panicked at" in msg:
                 continue  # generation panic: stage S3 reports it
             first = next((ln for ln in msg.split("\n") if "error" in ln), msg.split("\n")[0])
-            V("%s|generated-code-does-not-compile:%s|%s" % (lang, rustwl.norm_msg(re.sub(r"^.*?error:?", "", first)), label),
+            V("%s|generated-code-does-not-compile:%s|%s" % (lang, norm_compile(re.sub(r"^.*?error:?", "", first)), scope_label(label)),
               dict(case, observed=msg[-2500:]))
         res["evals"] += 1
 
 
 def run(tier):
     check = common.Check("C10", tier)
-    nseeds = 48 if tier == "thorough" else 8
+    nseeds = 48 if tier == "thorough" else 12
     nmut = 60 if tier == "thorough" else 25
     nsoup = 400 if tier == "thorough" else 120
     tasks = [("%d.%d" % (check.seed, j), nmut, nsoup) for j in range(nseeds)]
@@ -346,10 +405,10 @@ def run(tier):
         d = next(x for x in rc.descs if x["name"] == name)
         if why.get("stage") == "rustc":
             first = why.get("error", "").split("\n")[0]
-            check.violation("C10|rust|generated-code-does-not-compile:%s|generator:%s" % (rustwl.norm_msg(first), d["profile"]),
+            check.violation("C10|rust|generated-code-does-not-compile:%s|generator" % norm_compile(first),
                             {"source": d["text"], "observed": why.get("error", "")[:2500]})
         elif why.get("stage") == "gen:rust":
-            check.violation("C10|rust|backend-fails:%s|generator:%s" % (str(why.get("panic"))[:80], d["profile"]),
+            check.violation("C10|rust|backend-fails:%s|generator" % str(why.get("panic"))[:80],
                             {"source": d["text"], "observed": str(why)[:1500]})
         else:
             check.violation("C10|analyzer|rejects-generator-description|generator:%s" % d["profile"],
@@ -408,7 +467,7 @@ def run(tier):
         d = next(x for x in pdescs if x["name"] == name)
         if why.get("stage") == "rustc":
             first = why.get("error", "").split("\n")[0]
-            V("rust|generated-code-does-not-compile:%s|%s" % (rustwl.norm_msg(first), d["profile"]),
+            V("rust|generated-code-does-not-compile:%s|%s" % (norm_compile(first), d["profile"]),
               {"source": d["text"], "observed": why.get("error", "")[:2500]})
     results.append(_done(res))
     tot = {"evals": 0, "nontrivial": set(), "labels": {}, "unscoped": {}, "parsed": 0, "accepted": 0,
